@@ -1,5 +1,272 @@
-import FloxProofs.ValAlgebra
+/-
+  C03 — the result does not depend on the shape of the reduction tree (`split_every`, depth, bracketing), hence not on
+  the order in which ready tasks run nor on the scheduler.
+
+  WHAT IS MODELLED.  A dask graph of pure tasks computes a function of its dataflow only; the freedom a scheduler has is
+  (a) the order in which independent tasks run and (b) – through `split_every` – how the per-block partial results are
+  bracketed into a tree.  In the model every task is a pure Lean function, so (a) cannot influence the value by
+  construction; (b) is what the theorems below are about:
+
+    §1  one column of one group: ANY finitely-branching tree over the ordered per-block member lists evaluates to the
+        single-block value (`PTree`: arbitrary arity at every node, arbitrary depth, absent / all-NaN blocks anywhere)
+    §2  the whole pipeline: `runKnown` / `runUnknown` with any `split_every` (and any chunking) return the same result,
+        for every plan that has a tree (map-reduce with `reindex=True` / `reindex=False`, cohorts, grouped combine,
+        labels unknown until compute time)
+    §3  scans: the binary operator of the parallel (Blelloch) scan is associative on states, so every bracketing of
+        the per-block states represents the sequential prefix
+
+  NOT MODELLED: thread interleavings / shared mutable state (that the tasks are pure and do not mutate their inputs
+  is property C13, observed by the harness), and floating-point rounding (a different bracketing of a float sum may
+  round differently; `Val` is exact, see C20).  Parts are always combined in ARRAY ORDER: no commutativity is used
+  (and none holds for `nanfirst` / `nanlast` / arg-reductions, see C06).
+
+  Property theorems only (helper lemmas live in FloxProofs).  Vocabulary as in C02 (`codeKeys`, `CodesOK`, `HAbsent`,
+  `HMinMax`, `HDropped`, `CohortsSound`, `HCohortFill`).
+-/
+import FloxProofs.Tree
+import FloxProofs.EndToEnd
+import FloxProofs.EndToEndSparse
+import FloxProofs.Cohorts
+import FloxProofs.Grouped
+import FloxProofs.ArgReduce
+import FloxProofs.ScanChunked
+import FloxProofs.EndToEndExamples
+import FloxProofs.CohortsExamples
+
 namespace Flox.C03
-/-- placeholder until the tree theorems are merged: the scalar combine `Val.add` is associative -/
-theorem add_bracketing (a b c : Val) : Val.add (Val.add a b) c = Val.add a (Val.add b c) := Val.add_assoc a b c
+
+/-! ## §1 one column, one group: any tree -/
+
+/-- **Tree-shape independence.**  `t : PTree` is an arbitrary tree whose leaves carry the member lists of one group
+    inside the blocks, left to right; `t.eval k c f` applies the chunk kernel (`blockVal k f`: the group's
+    intermediate in that block, `f` when it is absent) at the leaves and `_simple_combine`'s kernel `c` at every
+    inner node.  For every built-in column `(k, c, f) ∈ floatColumns` (sum, nansum, prod, nanprod, max, nanmax, min,
+    nanmin, count, sum-of-squares (both), all, any, nanfirst, nanlast) the value is the intermediate of the
+    concatenated members – whatever the bracketing. -/
+theorem ptree_eval_eq (k c : Kernel) (f : Val) (h : (k, c, f) ∈ floatColumns) (t : PTree) :
+    t.eval k c f = blockVal k f t.leaves :=
+  PTree.eval_eq k c f h t
+
+/-- two reduction trees over the same members (any bracketing, any `split_every`, any depth, any placement of absent
+    blocks) give the same value -/
+theorem ptree_eval_congr (k c : Kernel) (f : Val) (h : (k, c, f) ∈ floatColumns)
+    (t₁ t₂ : PTree) (hl : t₁.leaves = t₂.leaves) : t₁.eval k c f = t₂.eval k c f :=
+  PTree.eval_congr k c f h t₁ t₂ hl
+
+/-- in particular a tree evaluates to the flat one-level combine of its leaf blocks (`split_every ≥` number of
+    blocks) -/
+theorem ptree_eval_eq_flat (k c : Kernel) (f : Val) (h : (k, c, f) ∈ floatColumns)
+    (t : PTree) (parts : List (List Val)) (hne : parts ≠ []) (hl : t.leaves = parts.flatten) :
+    t.eval k c f = combineVal c (parts.map (blockVal k f)) :=
+  PTree.eval_eq_flat k c f h t parts hne hl
+
+/-! ## §2 the pipeline: any `split_every`, any chunking -/
+
+/-- **map-reduce, `reindex=True`**: two calls that differ only in the chunking and in `split_every` (`c₁`, `c₂` are
+    arbitrary calls with the same blueprint, engine and number of groups; `splitEvery`, `sort`, `fillArg` are free)
+    return the same result.  Hypotheses as in `C02.mapreduce_dense_eq_spec`. -/
+theorem mapreduce_dense_chunking_tree_irrelevant (R : Resolved) (s : Shape) (c₁ c₂ : Call) (n : Nat)
+    (floatData : Bool) (chunks₁ chunks₂ : List Nat) (codes : List Int) (vals : List Val)
+    (hR₁ : c₁.R = R) (heng₁ : c₁.eng = .npg) (hn₁ : c₁.ngroups = n) (hknown₁ : c₁.knownLabels = true)
+    (hR₂ : c₂.R = R) (heng₂ : c₂.eng = .npg) (hn₂ : c₂.ngroups = n) (hknown₂ : c₂.knownLabels = true)
+    (hshape : R.shape? = some s) (hcodes : CodesOK codes n) (hlen : codes.length = vals.length)
+    (H_absent : ∀ g : Nat, g < n → HAbsent R (members (Int.ofNat g) codes vals))
+    (H_minmax : HMinMax R s)
+    (hchunks₁ : chunks₁ ≠ []) (hsum₁ : chunks₁.sum = codes.length)
+    (hchunks₂ : chunks₂ ≠ []) (hsum₂ : chunks₂.sum = codes.length)
+    (hcombine₁ : useGroupedCombine c₁ floatData = false) (hcombine₂ : useGroupedCombine c₂ floatData = false) :
+    runKnown c₁ (.mapreduce true) floatData chunks₁ (codeKeys codes) vals
+      = runKnown c₂ (.mapreduce true) floatData chunks₂ (codeKeys codes) vals :=
+  Flox.mapreduce_dense_chunking_tree_irrelevant R s c₁ c₂ n floatData chunks₁ chunks₂ codes vals hR₁ heng₁ hn₁
+    hknown₁ hR₂ heng₂ hn₂ hknown₂ hshape hcodes hlen H_absent H_minmax hchunks₁ hsum₁ hchunks₂ hsum₂ hcombine₁
+    hcombine₂
+
+/-- the same call with `split_every = k` instead of `c.splitEvery`: same result (the statement a user reads) -/
+theorem split_every_irrelevant_dense (R : Resolved) (s : Shape) (c : Call) (k : Nat) (n : Nat)
+    (floatData : Bool) (chunks : List Nat) (codes : List Int) (vals : List Val)
+    (hR : c.R = R) (heng : c.eng = .npg) (hn : c.ngroups = n) (hknown : c.knownLabels = true)
+    (hshape : R.shape? = some s) (hcodes : CodesOK codes n) (hlen : codes.length = vals.length)
+    (H_absent : ∀ g : Nat, g < n → HAbsent R (members (Int.ofNat g) codes vals))
+    (H_minmax : HMinMax R s)
+    (hchunks : chunks ≠ []) (hsum : chunks.sum = codes.length)
+    (hcombine : useGroupedCombine c floatData = false) :
+    runKnown { c with splitEvery := k } (.mapreduce true) floatData chunks (codeKeys codes) vals
+      = runKnown c (.mapreduce true) floatData chunks (codeKeys codes) vals :=
+  Flox.mapreduce_dense_chunking_tree_irrelevant R s { c with splitEvery := k } c n floatData chunks chunks codes vals
+    hR heng hn hknown hR heng hn hknown hshape hcodes hlen H_absent H_minmax hchunks hsum hchunks hsum hcombine
+    hcombine
+
+/-- **map-reduce, `reindex=False`** (every combine reindexes to the union of its inputs' groups, so the groups carried
+    by an inner node depend on the bracketing – the result does not) -/
+theorem mapreduce_sparse_chunking_tree_irrelevant (R : Resolved) (s : Shape) (c₁ c₂ : Call) (n : Nat)
+    (floatData : Bool) (chunks₁ chunks₂ : List Nat) (codes : List Int) (vals : List Val)
+    (hR₁ : c₁.R = R) (heng₁ : c₁.eng = .npg) (hn₁ : c₁.ngroups = n) (hknown₁ : c₁.knownLabels = true)
+    (hR₂ : c₂.R = R) (heng₂ : c₂.eng = .npg) (hn₂ : c₂.ngroups = n) (hknown₂ : c₂.knownLabels = true)
+    (hshape : R.shape? = some s) (hcodes : CodesOK codes n) (hlen : codes.length = vals.length)
+    (H_dropped : HDropped R n codes vals) (H_minmax : HMinMax R s)
+    (hsum₁ : chunks₁.sum = codes.length) (hsum₂ : chunks₂.sum = codes.length)
+    (hcombine₁ : useGroupedCombine c₁ floatData = false) (hcombine₂ : useGroupedCombine c₂ floatData = false) :
+    runKnown c₁ (.mapreduce false) floatData chunks₁ (codeKeys codes) vals
+      = runKnown c₂ (.mapreduce false) floatData chunks₂ (codeKeys codes) vals :=
+  Flox.mapreduce_sparse_chunking_tree_irrelevant R s c₁ c₂ n floatData chunks₁ chunks₂ codes vals hR₁ heng₁ hn₁
+    hknown₁ hR₂ heng₂ hn₂ hknown₂ hshape hcodes hlen H_dropped H_minmax hsum₁ hsum₂ hcombine₁ hcombine₂
+
+/-- the same call with another `split_every`, `reindex=False` -/
+theorem split_every_irrelevant_sparse (R : Resolved) (s : Shape) (c : Call) (k : Nat) (n : Nat)
+    (floatData : Bool) (chunks : List Nat) (codes : List Int) (vals : List Val)
+    (hR : c.R = R) (heng : c.eng = .npg) (hn : c.ngroups = n) (hknown : c.knownLabels = true)
+    (hshape : R.shape? = some s) (hcodes : CodesOK codes n) (hlen : codes.length = vals.length)
+    (H_dropped : HDropped R n codes vals) (H_minmax : HMinMax R s)
+    (hsum : chunks.sum = codes.length)
+    (hcombine : useGroupedCombine c floatData = false) :
+    runKnown { c with splitEvery := k } (.mapreduce false) floatData chunks (codeKeys codes) vals
+      = runKnown c (.mapreduce false) floatData chunks (codeKeys codes) vals :=
+  Flox.mapreduce_sparse_chunking_tree_irrelevant R s { c with splitEvery := k } c n floatData chunks chunks codes vals
+    hR heng hn hknown hR heng hn hknown hshape hcodes hlen H_dropped H_minmax hsum hsum hcombine hcombine
+
+/-- **cohorts**: flox builds one hand-written tree (`_tree_reduce`) PER COHORT over that cohort's blocks.  Two calls
+    that differ in `split_every`, in the (sound) cohort structure, in the chunking and in `sort` return the same
+    result.  Hypotheses as in `C02.cohorts_eq_spec`. -/
+theorem cohorts_structure_irrelevant (R : Resolved) (s : Shape) (c₁ c₂ : Call) (n : Nat) (floatData : Bool)
+    (chunks₁ chunks₂ : List Nat) (codes : List Int) (vals : List Val) (cs₁ cs₂ : List (List Nat × List Rat))
+    (hR₁ : c₁.R = R) (heng₁ : c₁.eng = .npg) (hn₁ : c₁.ngroups = n) (hknown₁ : c₁.knownLabels = true)
+    (hR₂ : c₂.R = R) (heng₂ : c₂.eng = .npg) (hn₂ : c₂.ngroups = n) (hknown₂ : c₂.knownLabels = true)
+    (hshape : R.shape? = some s) (hlen : codes.length = vals.length)
+    (hsound₁ : CohortsSound chunks₁ codes n cs₁) (hsound₂ : CohortsSound chunks₂ codes n cs₂)
+    (H_absent₁ : ∀ co ∈ cs₁, ∀ g : Nat, ((g : Nat) : Rat) ∈ co.2 → HAbsent R (members (Int.ofNat g) codes vals))
+    (H_absent₂ : ∀ co ∈ cs₂, ∀ g : Nat, ((g : Nat) : Rat) ∈ co.2 → HAbsent R (members (Int.ofNat g) codes vals))
+    (H_minmax : HMinMax R s)
+    (H_fill₁ : HCohortFill c₁ R n cs₁) (H_fill₂ : HCohortFill c₂ R n cs₂)
+    (hsum₁ : chunks₁.sum = codes.length) (hsum₂ : chunks₂.sum = codes.length)
+    (hcombine₁ : useGroupedCombine c₁ floatData = false) (hcombine₂ : useGroupedCombine c₂ floatData = false) :
+    runKnown c₁ (.cohorts cs₁) floatData chunks₁ (codeKeys codes) vals
+      = runKnown c₂ (.cohorts cs₂) floatData chunks₂ (codeKeys codes) vals :=
+  Flox.cohorts_structure_irrelevant R s c₁ c₂ n floatData chunks₁ chunks₂ codes vals cs₁ cs₂ hR₁ heng₁ hn₁ hknown₁
+    hR₂ heng₂ hn₂ hknown₂ hshape hlen hsound₁ hsound₂ H_absent₁ H_absent₂ H_minmax H_fill₁ H_fill₂ hsum₁ hsum₂
+    hcombine₁ hcombine₂
+
+/-- the same cohorts call with another `split_every` -/
+theorem split_every_irrelevant_cohorts (R : Resolved) (s : Shape) (c : Call) (k : Nat) (n : Nat) (floatData : Bool)
+    (chunks : List Nat) (codes : List Int) (vals : List Val) (cs : List (List Nat × List Rat))
+    (hR : c.R = R) (heng : c.eng = .npg) (hn : c.ngroups = n) (hknown : c.knownLabels = true)
+    (hshape : R.shape? = some s) (hlen : codes.length = vals.length)
+    (hsound : CohortsSound chunks codes n cs)
+    (H_absent : ∀ co ∈ cs, ∀ g : Nat, ((g : Nat) : Rat) ∈ co.2 → HAbsent R (members (Int.ofNat g) codes vals))
+    (H_minmax : HMinMax R s)
+    (H_fill : HCohortFill c R n cs)
+    (hsum : chunks.sum = codes.length)
+    (hcombine : useGroupedCombine c floatData = false) :
+    runKnown { c with splitEvery := k } (.cohorts cs) floatData chunks (codeKeys codes) vals
+      = runKnown c (.cohorts cs) floatData chunks (codeKeys codes) vals :=
+  Flox.cohorts_structure_irrelevant R s { c with splitEvery := k } c n floatData chunks chunks codes vals cs cs
+    hR heng hn hknown hR heng hn hknown hshape hlen hsound hsound H_absent H_absent H_minmax H_fill H_fill hsum hsum
+    hcombine hcombine
+
+/-- **labels unknown until compute time** (`_grouped_combine` at every node of the tree; the discovered labels are
+    part of the result): any two chunkings and `split_every` values give the same `(labels, values)`.
+    `presentKeys keys ≠ []`: at least one label is not missing (otherwise see `C12`). -/
+theorem runUnknown_chunking_tree_irrelevant (R : Resolved) (s : Shape) (c₁ c₂ : Call) (chunks₁ chunks₂ : List Nat)
+    (keys : List Key) (vals : List Val)
+    (hR₁ : c₁.R = R) (heng₁ : c₁.eng = .npg) (hR₂ : c₂.R = R) (heng₂ : c₂.eng = .npg) (hsort : c₁.sort = c₂.sort)
+    (hshape : R.shape? = some s)
+    (hlen : keys.length = vals.length) (hpres : presentKeys keys ≠ [])
+    (H_minmax : HMinMax R s)
+    (hchunks₁ : chunks₁ ≠ []) (hsum₁ : chunks₁.sum = keys.length)
+    (hchunks₂ : chunks₂ ≠ []) (hsum₂ : chunks₂.sum = keys.length) :
+    runUnknown c₁ chunks₁ keys vals = runUnknown c₂ chunks₂ keys vals :=
+  Grp.runUnknown_chunking_tree_irrelevant R s c₁ c₂ chunks₁ chunks₂ keys vals hR₁ heng₁ hR₂ heng₂ hsort hshape hlen
+    hpres H_minmax hchunks₁ hsum₁ hchunks₂ hsum₂
+
+/-- **arg-reductions**: "leftmost best (value, global index) pair" is associative – picking per block and then among
+    the blocks' winners (in block order) is picking once over the concatenation; this is what makes every tree of
+    `_grouped_combine` steps return the first occurrence of the extreme (see C06 for the pair laws). -/
+theorem arg_pick_any_bracketing (k : Kernel) (pss : List (List Grp.VI)) (hne : pss ≠ [])
+    (hall : ∀ ps ∈ pss, ps ≠ []) :
+    Grp.pick1 k (pss.map (Grp.pick1 k)) = Grp.pick1 k pss.flatten :=
+  Grp.pick1_flatten k pss hne hall
+
+/-! ## §3 scans: every bracketing of the per-block states -/
+
+/-- **associativity of the scan's binary operator, in the sense needed**: both bracketings of three adjacent block
+    states represent the same history `a ++ b ++ c`.  (`Scan.Rep f S X`: the aligned arrays `S` carry, for every group,
+    the last scan value of history `X`; `Scan.Good f l`: for `nancumsum` the data contain no ±inf – finding C10-F3,
+    `C10.nancumsum_state_loses_nan_counterexample` – no condition for `ffill` / `bfill`.) -/
+theorem scanBinop_assoc (f : Scan.Func) (a b c : Scan.AA) (ha : Scan.Good f a) (hb : Scan.Good f b)
+    (hc : Scan.Good f c) :
+    Scan.Rep f (Scan.combineState f (Scan.combineState f (Scan.groupedReduce f a) (Scan.groupedReduce f b))
+        (Scan.groupedReduce f c)) (a ++ b ++ c) ∧
+    Scan.Rep f (Scan.combineState f (Scan.groupedReduce f a) (Scan.combineState f (Scan.groupedReduce f b)
+        (Scan.groupedReduce f c))) (a ++ b ++ c) := by
+  constructor
+  · exact Scan.rep_combine f _ _ _ _ (Scan.rep_combine f _ _ _ _ (Scan.rep_leaf f a) (Scan.rep_leaf f b) ha hb)
+      (Scan.rep_leaf f c) (Scan.Good.append ha hb) hc
+  · rw [List.append_assoc]
+    exact Scan.rep_combine f _ _ _ _ (Scan.rep_leaf f a)
+      (Scan.rep_combine f _ _ _ _ (Scan.rep_leaf f b) (Scan.rep_leaf f c) hb hc) ha (Scan.Good.append hb hc)
+
+/-- **any bracketing** (`t : Scan.BTree`, a binary tree of block indices) of the per-block states gives the state of
+    the blocks concatenated in leaf order – in particular every tree dask's Blelloch up-sweep / down-sweep builds
+    gives the sequential prefix -/
+theorem blelloch_eq_sequential (f : Scan.Func) (blocks : List Scan.AA) (h : ∀ b ∈ blocks, Scan.Good f b)
+    (t : Scan.BTree) :
+    Scan.Rep f (t.eval (Scan.combineState f) (fun j => Scan.groupedReduce f (blocks.getD j [])))
+      ((t.leaves.map (blocks.getD · [])).flatten) :=
+  Scan.tree_rep f blocks h t
+
+/-- hence the chunked scan equals the grouped scan of the concatenated input for EVERY well-formed family of
+    bracketings (`Scan.TreesOK trees m`: tree `i-1` brackets blocks `0..i-1` in order) -/
+theorem scan_any_trees (f : Scan.Func) (trees₁ trees₂ : List Scan.BTree) (blocks : List Scan.AA)
+    (h : ∀ b ∈ blocks, Scan.Good f b)
+    (ht₁ : Scan.TreesOK trees₁ blocks.length) (ht₂ : Scan.TreesOK trees₂ blocks.length) :
+    Scan.scanChunked f trees₁ blocks = Scan.scanChunked f trees₂ blocks := by
+  rw [Scan.scanChunked_eq f trees₁ blocks h ht₁, Scan.scanChunked_eq f trees₂ blocks h ht₂]
+
+/-! ### non-vacuity -/
+
+/-- three bracketings `((a b) c) d`, `a (b (c d))`, flat – with an absent block, an all-NaN block and a NaN inside a
+    block – agree on every built-in column (both sides computed by the kernel) -/
+example : ∀ t ∈ floatColumns,
+    exLeft.eval t.1 t.2.1 t.2.2 = exRight.eval t.1 t.2.1 t.2.2 ∧
+    exLeft.eval t.1 t.2.1 t.2.2 = exFlat.eval t.1 t.2.1 t.2.2 ∧
+    exLeft.eval t.1 t.2.1 t.2.2 = blockVal t.1 t.2.2 exLeft.leaves := by
+  decide +kernel
+
+example : exLeft.eval .nanmin .nanmin Val.pinf = Val.fin (-2) ∧ exRight.eval .nanlast .nanlast Val.nan = Val.pinf := by
+  decide +kernel
+
+example : exLeft.eval .nanmax .nanmax Val.ninf = exRight.eval .nanmax .nanmax Val.ninf :=
+  ptree_eval_congr _ _ _ (by decide +kernel) _ _ (by decide +kernel)
+
+open E2E in
+/-- 8 blocks of one element: `split_every = 2` (depth 3), `3`, `8` (flat) – `split_every_irrelevant_dense` applies and
+    the common value is a real one -/
+example :
+    runKnown { mkCall Rnanmean .npg 4 2 with splitEvery := 3 } (.mapreduce true) true [1, 1, 1, 1, 1, 1, 1, 1]
+        (codeKeys codes8) vals8
+      = runKnown (mkCall Rnanmean .npg 4 2) (.mapreduce true) true [1, 1, 1, 1, 1, 1, 1, 1] (codeKeys codes8) vals8
+    ∧ runKnown (mkCall Rnanmean .npg 4 8) (.mapreduce true) true [1, 1, 1, 1, 1, 1, 1, 1] (codeKeys codes8) vals8
+      = .ok [Val.fin (3/2), Val.fin (-1), Val.fin 4, Val.fin (-1)]
+    ∧ runKnown (mkCall Rnanmean .npg 4 2) (.mapreduce true) true [1, 1, 1, 1, 1, 1, 1, 1] (codeKeys codes8) vals8
+      = .ok [Val.fin (3/2), Val.fin (-1), Val.fin 4, Val.fin (-1)] :=
+  ⟨split_every_irrelevant_dense Rnanmean (.mean true) (mkCall Rnanmean .npg 4 2) 3 4 true [1, 1, 1, 1, 1, 1, 1, 1]
+      codes8 vals8 rfl rfl rfl rfl (by decide +kernel) codes8_ok rfl (fun _ _ => Or.inl (by decide))
+      (by decide +kernel) (by decide) rfl (by decide +kernel),
+    by decide +kernel, by decide +kernel⟩
+
+open E2E in
+/-- cohorts: `split_every` 2 vs 5, two different sound cohort structures, `sort` true vs false -/
+example : runKnown (mkCall Rnanmean .npg 4 2) (.cohorts cs8a) true [2, 1, 3, 2] (codeKeys codes8) vals8
+    = runKnown { mkCall Rnanmean .npg 4 5 with sort := false } (.cohorts cs8b) true [2, 1, 3, 2] (codeKeys codes8)
+        vals8 :=
+  cohorts_structure_irrelevant Rnanmean (.mean true) (mkCall Rnanmean .npg 4 2)
+    { mkCall Rnanmean .npg 4 5 with sort := false } 4 true [2, 1, 3, 2] [2, 1, 3, 2] codes8 vals8 cs8a cs8b
+    rfl rfl rfl rfl rfl rfl rfl rfl (by decide +kernel) rfl cs8a_sound cs8b_sound
+    (fun _ _ _ _ => Or.inl (by decide)) (fun _ _ _ _ => Or.inl (by decide)) (by decide +kernel)
+    ⟨fun _ _ _ => rfl, by decide +kernel⟩ ⟨fun _ _ _ => rfl, by decide +kernel⟩ rfl rfl (by decide +kernel)
+    (by decide +kernel)
+
+/-- order matters for `nanfirst`: the theorems above never permute blocks (no commutativity is available) -/
+example : combineVal .nanfirst ([[Val.fin 1], [Val.fin 2]].map (blockVal .nanfirst Val.nan))
+    ≠ combineVal .nanfirst ([[Val.fin 2], [Val.fin 1]].map (blockVal .nanfirst Val.nan)) := by decide +kernel
+
 end Flox.C03
